@@ -763,7 +763,7 @@ class EventSource(object):
                     if self.dictable:
                         try:
                             ejson = json.loads(edata, object_pairs_hook=odict)
-                        except ValueError as ex:
+                        except (ValueError, RecursionError) as ex:
                             ejson = None
                         else:  # valid json set edata to ejson
                             edata = ejson
@@ -1075,6 +1075,6 @@ class Parsent(object):
             try:
                 self.data = json.loads(self.body.decode('utf-8'),
                                        object_pairs_hook=odict)
-            except ValueError as ex:
+            except (ValueError, RecursionError) as ex:  # not json or nested too deep
                 self.data = None
 
